@@ -29,7 +29,8 @@ func init() { vh.Register("C17", runC17) }
 
 type c17Tool struct {
 	Name    string `json:"name"`
-	Kind    string `json:"kind"` // inv | str | both | none
+	Kind    string `json:"kind"` // inv | str | both | none | uinv | ustr (built by components/tool/utils, c17_utils.go)
+	Req     string `json:"req,omitempty"` // uinv/ustr: request type val | ptr | map
 	Tag     string `json:"tag"`
 	Diverge bool   `json:"diverge,omitempty"` // both: the streamable form answers "S"+…
 }
@@ -42,6 +43,11 @@ type c17Call struct {
 	Fid   int    `json:"fid,omitempty"`
 	Cuts  []int  `json:"cuts,omitempty"` // chunking of the streamable form
 	Empty bool   `json:"empty,omitempty"`
+	// family `late` (c17_late.go): the streamable form sends only the first Hold chunks before
+	// StreamableRun returns, the others afterwards, looking at its context before each
+	Late   bool   `json:"late,omitempty"`
+	Hold   int    `json:"hold,omitempty"`
+	OnDone string `json:"onDone,omitempty"` // fail | stop | ignore: on finding the context done
 }
 
 type c17Case struct {
@@ -56,6 +62,14 @@ type c17Case struct {
 	Pipe      bool      `json:"pipe,omitempty"`
 	ViaOption bool      `json:"viaOption,omitempty"` // tools given by the WithToolList call option
 	ToolOpt   bool      `json:"toolOpt,omitempty"`   // a tool option is passed with the call (WithToolOption)
+	// family `late`: order of the producers' late steps; the caller cancels its context after
+	// CancelAfter steps of it (nil: never)
+	Prod        []int `json:"prod,omitempty"`
+	CancelAfter *int  `json:"cancelAfter,omitempty"`
+	// family `utils`: an earlier message sent through the same node; the script releases the
+	// first call only when all calls of the message are inside their tools
+	Prior   []c17Call `json:"prior,omitempty"`
+	Overlap bool      `json:"overlap,omitempty"`
 }
 
 // ---- canonical observables ----
@@ -66,7 +80,7 @@ type c17Msg struct {
 }
 
 type c17Err struct {
-	K  string `json:"k"` // user | panic | empty | prerun | other
+	K  string `json:"k"` // user | panic | empty | prerun | ctx | other
 	ID int    `json:"id"`
 }
 
@@ -76,6 +90,7 @@ type c17Obs struct {
 	Sources   [][]*c17Msg `json:"sources,omitempty"`
 	Collected []*c17Msg   `json:"collected,omitempty"`
 	CollErr   string      `json:"collErr,omitempty"`
+	CtxErrs   []int       `json:"ctxErrs,omitempty"` // sources that delivered their context's error
 	Err       *c17Err     `json:"err,omitempty"`
 	PanicID   int         `json:"panicId,omitempty"`
 	Ran       int         `json:"ran"`
@@ -98,6 +113,9 @@ type c17Env struct {
 	stray  int32 // executions whose argument names no call position
 	marker int   // value of the tool option passed with the call (0 = none passed)
 	badCtx int32 // executions that did not see their own call id / the tool option
+	late   *c17LateEnv
+	arrived int32         // executions that have reached their gate
+	arrSig  chan struct{} // signalled on every arrival
 }
 
 type c17Opt struct{ marker int }
@@ -105,7 +123,7 @@ type c17Opt struct{ marker int }
 func c17NewEnv(c *c17Case) *c17Env {
 	n := len(c.Calls)
 	e := &c17Env{c: c, gate: make([]chan struct{}, n), done: make([]chan struct{}, n), count: make([]int32, n),
-		errs: make([]error, n), abort: make(chan struct{}), closed: make([]bool, n)}
+		errs: make([]error, n), abort: make(chan struct{}), closed: make([]bool, n), late: c17NewLateEnv(c), arrSig: make(chan struct{}, 1)}
 	for i := 0; i < n; i++ {
 		e.gate[i] = make(chan struct{})
 		e.done[i] = make(chan struct{}, 16)
@@ -135,6 +153,18 @@ func (e *c17Env) openAll() {
 // about to wait: no deadlock.  abort opens everything at once.
 func (e *c17Env) controller(finished chan<- struct{}) {
 	defer close(finished)
+	if e.c.Overlap {
+		// every runner is started independently of the others, so all calls of the message
+		// arrive at their gates; only then the first one is released
+		for int(atomic.LoadInt32(&e.arrived)) < len(e.gate) {
+			select {
+			case <-e.arrSig:
+			case <-e.abort:
+				e.openAll()
+				return
+			}
+		}
+	}
 	seen := map[int]bool{}
 	for _, k := range e.c.Sigma {
 		if k < 0 || k >= len(e.gate) || seen[k] {
@@ -169,6 +199,26 @@ func (e *c17Env) enter(ctx context.Context, args string, opts []tool.Option) (k 
 	k = c17Pos(args)
 	if k < 0 || k >= len(e.gate) || e.c.Calls[k].Args != args {
 		atomic.AddInt32(&e.stray, 1)
+		e.arrive()
+		return -1, func() {}
+	}
+	return e.enterPos(ctx, k, opts)
+}
+
+// arrive: one more execution of the message is inside its tool (or will never be).
+func (e *c17Env) arrive() {
+	atomic.AddInt32(&e.arrived, 1)
+	select {
+	case e.arrSig <- struct{}{}:
+	default:
+	}
+}
+
+// enterPos: the execution for call position k (however the tool found out which call it serves).
+func (e *c17Env) enterPos(ctx context.Context, k int, opts []tool.Option) (int, func()) {
+	if k < 0 || k >= len(e.gate) {
+		atomic.AddInt32(&e.stray, 1)
+		e.arrive()
 		return -1, func() {}
 	}
 	atomic.AddInt32(&e.count[k], 1)
@@ -180,6 +230,7 @@ func (e *c17Env) enter(ctx context.Context, args string, opts []tool.Option) (k 
 	if opts != nil && tool.GetImplSpecificOptions(&c17Opt{}, opts...).marker != e.marker {
 		atomic.AddInt32(&e.badCtx, 1)
 	}
+	e.arrive()
 	<-e.gate[k]
 	return k, func() {
 		select {
@@ -246,6 +297,9 @@ func (b *c17Base) stream(ctx context.Context, args string, opts []tool.Option, o
 	} else if !b.env.c.Calls[k].Empty {
 		chunks = c17Cut(outp(args), b.env.c.Calls[k].Cuts)
 	}
+	if k >= 0 && b.env.c.Calls[k].Late {
+		return b.lateStream(ctx, k, chunks), nil
+	}
 	if b.env.c.Pipe {
 		sr, sw := schema.Pipe[string](len(chunks) + 1) // never blocks the sender
 		go func() {
@@ -304,11 +358,17 @@ func (t *c17BothTool) StreamableRun(ctx context.Context, args string, opts ...to
 
 type c17NoneTool struct{ c17Base }
 
-func c17Tools(c *c17Case, env *c17Env) []tool.BaseTool {
+func c17Tools(c *c17Case, env *c17Env, hold *c17Holder) ([]tool.BaseTool, error) {
 	var out []tool.BaseTool
 	for _, s := range c.Tools {
 		b := c17Base{spec: s, env: env}
 		switch s.Kind {
+		case "uinv", "ustr":
+			t, err := c17UTool(s, hold)
+			if err != nil {
+				return nil, err
+			}
+			out = append(out, t)
 		case "inv":
 			out = append(out, &c17InvTool{b})
 		case "str":
@@ -319,7 +379,7 @@ func c17Tools(c *c17Case, env *c17Env) []tool.BaseTool {
 			out = append(out, &c17NoneTool{b})
 		}
 	}
-	return out
+	return out, nil
 }
 
 // ---- running the implementation ----
@@ -335,6 +395,11 @@ func c17Canon(m *schema.Message, shape *string) *c17Msg {
 }
 
 func c17ClassifyErr(env *c17Env, err error) *c17Err {
+	var ce *c17CtxErr
+	if errors.As(err, &ce) {
+		// a producer of the family `late` found its context done
+		return &c17Err{K: "ctx", ID: ce.pos}
+	}
 	for k, s := range env.errs {
 		if errors.Is(err, s) {
 			return &c17Err{K: "user", ID: env.c.Calls[k].Fid}
@@ -380,8 +445,16 @@ const c17Timeout = 20 * time.Second
 func c17RunImpl(c *c17Case) *c17Obs {
 	env := c17NewEnv(c)
 	obs := &c17Obs{}
-	ctx := context.Background()
-	tools := c17Tools(c, env)
+	ctx, cancelCaller := context.WithCancel(context.Background())
+	defer cancelCaller()
+	env.late.cancel = cancelCaller
+	hold := &c17Holder{env: env}
+	tools, terr := c17Tools(c, env, hold)
+	if terr != nil {
+		obs.Class = "build-error"
+		obs.Note = terr.Error()
+		return obs
+	}
 	conf := &compose.ToolsNodeConfig{Tools: tools}
 	var callOpts []compose.ToolsNodeOption
 	if c.ViaOption {
@@ -394,7 +467,7 @@ func c17RunImpl(c *c17Case) *c17Obs {
 	}
 	if c.Handler {
 		conf.UnknownToolsHandler = func(ctx context.Context, name, input string) (string, error) {
-			b := &c17Base{env: env}
+			b := &c17Base{env: hold.env}
 			return b.invoke(ctx, input, nil, func(a string) string { return "H:" + name + "(" + a + ")" })
 		}
 	}
@@ -407,11 +480,15 @@ func c17RunImpl(c *c17Case) *c17Obs {
 	if !c.Assistant {
 		role = schema.User
 	}
-	input := &schema.Message{Role: role}
-	for _, cl := range c.Calls {
-		input.ToolCalls = append(input.ToolCalls, schema.ToolCall{ID: cl.ID, Type: "function",
-			Function: schema.FunctionCall{Name: cl.Name, Arguments: cl.Args}})
+	mkInput := func(calls []c17Call) *schema.Message {
+		in := &schema.Message{Role: role}
+		for _, cl := range calls {
+			in.ToolCalls = append(in.ToolCalls, schema.ToolCall{ID: cl.ID, Type: "function",
+				Function: schema.FunctionCall{Name: cl.Name, Arguments: cl.Args}})
+		}
+		return in
 	}
+	input := mkInput(c.Calls)
 
 	var invoke func() ([]*schema.Message, error)
 	var stream func() (*schema.StreamReader[[]*schema.Message], error)
@@ -450,6 +527,42 @@ func c17RunImpl(c *c17Case) *c17Obs {
 		stream = func() (*schema.StreamReader[[]*schema.Message], error) { return tn.Stream(ctx, input, callOpts...) }
 	}
 
+	// family `utils`: an earlier message through the same node and the same tool instances,
+	// unscripted (every gate open); only the tools built by utils can serve two runs
+	if len(c.Prior) > 0 && c.allUtils() {
+		pc := &c17Case{Assistant: true, Calls: c.Prior, Mode: c.Mode, Host: c.Host}
+		penv := c17NewEnv(pc)
+		penv.marker = env.marker
+		penv.openAll()
+		hold.env = penv
+		main := input
+		input = mkInput(c.Prior)
+		okPrior := vh.WithTimeout(c17Timeout, func() {
+			c17Safely(func() {
+				if c.Mode == "stream" {
+					if sr, err := stream(); err == nil {
+						for {
+							if _, err := sr.Recv(); err != nil {
+								break
+							}
+						}
+						sr.Close()
+					}
+				} else {
+					invoke()
+				}
+			})
+		})
+		close(penv.abort)
+		input = main
+		hold.env = env
+		if !okPrior {
+			obs.Class = "hang"
+			obs.Note = "the earlier message did not return"
+			return obs
+		}
+	}
+
 	ctrlDone := make(chan struct{})
 	go env.controller(ctrlDone)
 
@@ -458,6 +571,7 @@ func c17RunImpl(c *c17Case) *c17Obs {
 		chunks   [][]*schema.Message
 		runErr   error
 		recvErr  error
+		ctxErrs  []int
 		panicked bool
 		pval     any
 	)
@@ -470,12 +584,23 @@ func c17RunImpl(c *c17Case) *c17Obs {
 					return
 				}
 				defer sr.Close()
+				if !env.late.free && c.hasLate() {
+					env.late.started = true
+					go env.lateScript()
+				}
 				for {
 					ch, err := sr.Recv()
 					if err == io.EOF {
 						return
 					}
 					if err != nil {
+						// the context error of a late producer ends that source only: note
+						// whose it is and read on (MergeStreamReaders goes on with the others)
+						var ce *c17CtxErr
+						if errors.As(err, &ce) && c.Host != "graphConcat" && len(ctxErrs) <= 4*len(c.Calls) {
+							ctxErrs = append(ctxErrs, ce.pos)
+							continue
+						}
 						recvErr = err
 						return
 					}
@@ -509,6 +634,11 @@ func c17RunImpl(c *c17Case) *c17Obs {
 	}
 	close(env.abort)
 	<-ctrlDone
+	if env.late.started {
+		<-env.late.done
+	}
+	sort.Ints(ctxErrs)
+	obs.CtxErrs = ctxErrs
 
 	for k := range env.count {
 		switch n := atomic.LoadInt32(&env.count[k]); {
@@ -616,6 +746,7 @@ type c17Model struct {
 	Msgs      []*c17Msg     `json:"msgs"`
 	Sources   [][]*c17Msg   `json:"sources"`
 	Collected *c17ModelColl `json:"collected"`
+	CtxErrs   []int         `json:"ctxErrs"`
 	Err       *c17ModelErr  `json:"err"`
 	ID        int           `json:"id"`
 	Ran       int           `json:"ran"`
@@ -650,6 +781,9 @@ func c17Expect(c *c17Case, m *c17Model) *c17Obs {
 			if m.Collected != nil {
 				o.Collected = m.Collected.Ok
 				o.CollErr = m.Collected.Err
+			}
+			if len(m.CtxErrs) > 0 {
+				o.CtxErrs = m.CtxErrs
 			}
 		} else {
 			o.Msgs = m.Msgs
@@ -826,7 +960,7 @@ func c17Key(c *c17Case) string {
 	for _, cl := range c.Calls {
 		names = append(names, cl.Name)
 	}
-	return fmt.Sprintf("%s/%s/%v/%v/%v/%s/%v/%v", c.Mode, c.Host, kinds, names, c.Sigma, c17FaultShape(c), c.Handler, c.ViaOption)
+	return fmt.Sprintf("%s/%s/%v/%v/%v/%s/%v/%v/%s", c.Mode, c.Host, kinds, names, c.Sigma, c17FaultShape(c), c.Handler, c.ViaOption, c17LateShape(c)+c17UtilsShape(c))
 }
 
 func c17Sig(c *c17Case, what string) string {
@@ -840,8 +974,39 @@ func c17Sig(c *c17Case, what string) string {
 			faults = "err"
 		}
 	}
-	return fmt.Sprintf("C17:%s:mode=%s:host=%s:faults=%s", what, c.Mode, c.Host, faults)
+	sig := fmt.Sprintf("C17:%s:mode=%s:host=%s:faults=%s", what, c.Mode, c.Host, faults)
+	if c.hasLate() {
+		// the failing input has a tool still producing after StreamableRun returned
+		sig += ":late"
+		if c.CancelAfter != nil {
+			sig += "+cancel"
+		}
+	}
+	if c.hasUtils() {
+		// the failing input has a tool built by components/tool/utils
+		sig += ":utils"
+		if len(c.Prior) > 0 {
+			sig += "+prior"
+		}
+	}
+	return sig
 }
+
+// c17SigBase is the signature without the family suffix (the shrinker may leave the family).
+func c17SigBase(c *c17Case, what string) string {
+	s := c17Sig(c, what)
+	for _, suf := range []string{":late", ":utils"} {
+		if i := strings.Index(s, suf); i >= 0 {
+			s = s[:i]
+		}
+	}
+	return s
+}
+
+var (
+	c17ShrunkMu sync.Mutex
+	c17Shrunk   = map[string]int{}
+)
 
 func c17Compare(ctx *vh.Ctx, c *c17Case, raw json.RawMessage) error {
 	var m c17Model
@@ -849,6 +1014,10 @@ func c17Compare(ctx *vh.Ctx, c *c17Case, raw json.RawMessage) error {
 		return fmt.Errorf("oracle answer: %v: %s", err, string(raw))
 	}
 	want := c17Expect(c, &m)
+	if ctx.Replay == nil && c17UtilsSkip(c) {
+		ctx.Res.Dist("utils-map-case-not-run-after-a-utils-disagreement")
+		return nil
+	}
 	ctx.Progress.Mark(c)
 	got := c17RunImpl(c)
 
@@ -906,6 +1075,49 @@ func c17Compare(ctx *vh.Ctx, c *c17Case, raw json.RawMessage) error {
 	if got.Class == "panic" {
 		ctx.Res.Dist("panic-escapes-standalone-inline-task0")
 	}
+	if c.hasUtils() {
+		for _, t := range c.Tools {
+			if c17IsUtilsKind(t.Kind) {
+				ctx.Res.Dist("utils-tool=" + t.Kind + "/" + t.Req)
+			}
+		}
+		rep := map[string]int{}
+		most := 0
+		for _, cl := range c.Calls {
+			rep[cl.Name]++
+			if rep[cl.Name] > most {
+				most = rep[cl.Name]
+			}
+		}
+		ctx.Res.Dist(fmt.Sprintf("utils-same-tool-calls=%d", most))
+		ctx.Res.Dist(fmt.Sprintf("utils-prior=%d/overlap=%v", len(c.Prior), c.Overlap))
+	}
+	if c.hasLate() {
+		nl := 0
+		for _, cl := range c.Calls {
+			if cl.Late {
+				nl++
+				od := cl.OnDone
+				if od == "" {
+					od = "fail"
+				}
+				ctx.Res.Dist("late-onDone=" + od)
+			}
+		}
+		ctx.Res.Dist(fmt.Sprintf("late-calls=%d", nl))
+		ctx.Res.Dist("late/mode=" + c.Mode + "/host=" + c.Host)
+		switch {
+		case c.CancelAfter == nil:
+			ctx.Res.Dist("late-cancel=never")
+		case *c.CancelAfter == 0:
+			ctx.Res.Dist("late-cancel=before-first-step")
+		case *c.CancelAfter >= len(c.Prod):
+			ctx.Res.Dist("late-cancel=after-script")
+		default:
+			ctx.Res.Dist("late-cancel=mid-script")
+		}
+		ctx.Res.Dist(fmt.Sprintf("late-ctx-errors-delivered=%d", len(got.CtxErrs)))
+	}
 	for _, m := range got.Collected {
 		if m == nil {
 			// a streamable tool with an empty stream: Invoke fails, the streamed form has a
@@ -921,10 +1133,18 @@ func c17Compare(ctx *vh.Ctx, c *c17Case, raw json.RawMessage) error {
 	if what == "" {
 		return nil
 	}
+	if c.hasUtils() {
+		c17UtilsBroken = true
+	}
 	// shrink: drop trailing calls / chunkings / unused tools while the same observable differs
 	var sc *c17Case
 	var sw, sg *c17Obs
-	if ctx.Replay == nil {
+	// the framework keeps 3 disagreements per signature: shrinking more of one kind is wasted time
+	c17ShrunkMu.Lock()
+	c17Shrunk[c17Sig(c, what)]++
+	doShrink := c17Shrunk[c17Sig(c, what)] <= 6
+	c17ShrunkMu.Unlock()
+	if ctx.Replay == nil && doShrink {
 		sc, sw, sg = c17Shrink(ctx, c, what)
 	}
 	if sc != nil {
@@ -966,6 +1186,10 @@ func c17Diff(c *c17Case, want, got *c17Obs) (what, text string) {
 		what = "which-panic"
 	case c.Mode != "stream" && got.Class == "ok" && !vh.CanonEq(got.Msgs, want.Msgs):
 		what = "messages"
+	case c.Mode == "stream" && got.Class == "ok" && !c17SameInts(got.CtxErrs, want.CtxErrs):
+		// a source delivered its context's error although the model's context is alive (or
+		// did not although the caller had cancelled)
+		what = "stream-ctx-error"
 	case c.Mode == "stream" && got.Class == "ok" && c.Host != "graphConcat" && !vh.CanonEq(got.Sources, want.Sources):
 		what = "stream-chunks"
 	case c.Mode == "stream" && got.Class == "ok" && (got.CollErr != want.CollErr || !vh.CanonEq(got.Collected, want.Collected)):
@@ -975,6 +1199,18 @@ func c17Diff(c *c17Case, want, got *c17Obs) (what, text string) {
 		text = fmt.Sprintf("%s differs between the implementation and the model (completion order %v)", what, c.Sigma)
 	}
 	return what, text
+}
+
+func c17SameInts(a, b []int) bool {
+	if len(a) != len(b) {
+		return false
+	}
+	for i := range a {
+		if a[i] != b[i] {
+			return false
+		}
+	}
+	return true
 }
 
 func c17Clone(c *c17Case) *c17Case {
@@ -1011,7 +1247,17 @@ func c17Shrink(ctx *vh.Ctx, c *c17Case, what string) (*c17Case, *c17Obs, *c17Obs
 		want := c17Expect(d, &m)
 		ctx.Progress.Mark(d)
 		got := c17RunImpl(d)
-		if w, _ := c17Diff(d, want, got); w == what && c17Sig(d, what) == c17Sig(c, what) {
+		if w, _ := c17Diff(d, want, got); w == what && c17SigBase(d, what) == c17SigBase(c, what) {
+			if d.hasUtils() {
+				// what goes wrong between overlapping calls of a utils-built tool may depend on
+				// the order in which they decode: keep a smaller case only if it fails again
+				for rep := 0; rep < 2; rep++ {
+					ctx.Progress.Mark(d)
+					if w2, _ := c17Diff(d, want, c17RunImpl(d)); w2 != what {
+						return false
+					}
+				}
+			}
 			best, bw, bg, cur = d, want, got, d
 			return true
 		}
@@ -1019,6 +1265,57 @@ func c17Shrink(ctx *vh.Ctx, c *c17Case, what string) (*c17Case, *c17Obs, *c17Obs
 	}
 	for budget := 40; budget > 0; {
 		progress := false
+		// family `utils`: no earlier message
+		if len(cur.Prior) > 0 {
+			d := c17Clone(cur)
+			d.Prior = nil
+			budget--
+			if try(d) {
+				progress = true
+			}
+		}
+		// (the forced overlap is kept: without it whether the calls overlap is up to the scheduler
+		// and the replay of the shrunk case would not be deterministic)
+		// leave the family `late`: every producer eager, nobody cancels
+		if cur.hasLate() || cur.CancelAfter != nil || len(cur.Prod) > 0 {
+			d := c17Clone(cur)
+			for i := range d.Calls {
+				d.Calls[i].Late, d.Calls[i].Hold, d.Calls[i].OnDone = false, 0, ""
+			}
+			d.Prod, d.CancelAfter = nil, nil
+			budget--
+			if try(d) {
+				progress = true
+				continue
+			}
+			// or at least: nobody cancels / one late call only
+			if cur.CancelAfter != nil {
+				d := c17Clone(cur)
+				d.CancelAfter = nil
+				budget--
+				if try(d) {
+					progress = true
+				}
+			}
+			nl := 0
+			for _, cl := range cur.Calls {
+				if cl.Late {
+					nl++
+				}
+			}
+			for i := 0; nl > 1 && i < len(cur.Calls); i++ {
+				if !cur.Calls[i].Late {
+					continue
+				}
+				d := c17Clone(cur)
+				d.Calls[i].Late, d.Calls[i].Hold, d.Calls[i].OnDone = false, 0, ""
+				budget--
+				if try(d) {
+					progress = true
+					nl--
+				}
+			}
+		}
 		// drop the last call (positions of the others stay valid)
 		if n := len(cur.Calls); n > 1 {
 			d := c17Clone(cur)
@@ -1034,6 +1331,13 @@ func c17Shrink(ctx *vh.Ctx, c *c17Case, what string) (*c17Case, *c17Obs, *c17Obs
 				d.Sigma = []int{}
 			}
 			d.Sched = []int{}
+			var pr []int
+			for _, k := range d.Prod {
+				if k != n-1 {
+					pr = append(pr, k)
+				}
+			}
+			d.Prod = pr
 			budget--
 			if try(d) {
 				progress = true
@@ -1045,7 +1349,7 @@ func c17Shrink(ctx *vh.Ctx, c *c17Case, what string) (*c17Case, *c17Obs, *c17Obs
 			changed := d.Pipe || d.ViaOption || d.ToolOpt || len(d.Sched) > 0
 			d.Pipe, d.ViaOption, d.ToolOpt, d.Sched = false, false, false, []int{}
 			for i := range d.Calls {
-				if len(d.Calls[i].Cuts) > 0 {
+				if len(d.Calls[i].Cuts) > 0 && !d.Calls[i].Late {
 					d.Calls[i].Cuts = nil
 					changed = true
 				}
@@ -1123,7 +1427,7 @@ func c17Batch(ctx *vh.Ctx, cs []*c17Case) error {
 }
 
 func runC17(ctx *vh.Ctx) error {
-	ctx.Res.Rule = "tool-call lists of 0-6 calls (repeated tools, unknown names, odd ids) x invokable-only / streamable-only / both tools x completion order forced by a barrier script (tool i returns only when released; releases follow the permutation) x failing / panicking subsets x with/without unknown-tool handler x Invoke / Stream x standalone / graph / graph with framework-side concatenation; systematic part: every permutation of n<=4 (thorough: n<=5) calls x 0-2 faulty positions (error/panic) x Invoke/Stream; every execution also checks that the tool saw its own call id in the context and the tool option of the call; non-trivial = at least 2 calls and the tools were run; distinct by (mode, host, tool kinds, call names, permutation, fault positions, handler, tool-list option)"
+	ctx.Res.Rule = "tool-call lists of 0-6 calls (repeated tools, unknown names, odd ids) x invokable-only / streamable-only / both tools x completion order forced by a barrier script (tool i returns only when released; releases follow the permutation) x failing / panicking subsets x with/without unknown-tool handler x Invoke / Stream x standalone / graph / graph with framework-side concatenation; systematic part: every permutation of n<=4 (thorough: n<=5) calls x 0-2 faulty positions (error/panic) x Invoke/Stream; every execution also checks that the tool saw its own call id in the context and the tool option of the call; family late: streamable tools that send only their first chunks before StreamableRun returns and the others afterwards, looking at their context before each (fail / stop / ignore on a done context), the late steps of all producers forced into a scripted order (the script starts when Stream has returned and releases each step when the previous one has been taken), the caller cancelling its context never or a given number of steps into the script (systematic: 1-3 calls x late position x str/both x hold x onDone x cancel never/0/1/2 x standalone/graph, never-cancelled also as Invoke and with framework-side concatenation); family utils: tools built by utils.Infer(Optionable)(Stream)Tool / New(Stream)Tool over a request struct / pointer / map with optional fields, JSON arguments with any subset of the fields in any order, the same tool called several times in one message with different arguments, the user's function finding its call by the call id in the context and reading its request only after the script released it, the first release only when all calls of the message are inside their tools (overlap), optionally an earlier message through the same node (systematic: 2-3 calls of one tool x uinv/ustr x val/ptr/map x Invoke/Stream x standalone/graph x with/without earlier message x identity/reversed completion); non-trivial = at least 2 calls and the tools were run; distinct by (mode, host, tool kinds, call names, permutation, fault positions, handler, tool-list option, late calls with hold/onDone, cancellation point, request types of the utils tools, earlier message, overlap)"
 	if ctx.Replay != nil {
 		var c c17Case
 		if err := json.Unmarshal(ctx.Replay, &c); err != nil {
@@ -1147,11 +1451,40 @@ func runC17(ctx *vh.Ctx) error {
 			return err
 		}
 	}
+	// family `late`, systematic part (deterministic; the seed picks the start)
+	lsys := c17SystematicLate()
+	loff := ctx.Rng.Intn(len(lsys))
+	for i := 0; i < len(lsys) && ctx.TimeLeft(); i += 200 {
+		var b []*c17Case
+		for j := i; j < i+200 && j < len(lsys); j++ {
+			b = append(b, lsys[(j+loff)%len(lsys)])
+		}
+		if err := c17Batch(ctx, b); err != nil {
+			return err
+		}
+	}
+	// family `utils`, systematic part
+	usys := c17SystematicUtils()
+	for i := 0; i < len(usys) && ctx.TimeLeft(); i += 200 {
+		var b []*c17Case
+		for j := i; j < i+200 && j < len(usys); j++ {
+			b = append(b, usys[j]) // fixed order: pointer / struct requests before map requests
+		}
+		if err := c17Batch(ctx, b); err != nil {
+			return err
+		}
+	}
 	n := ctx.N(12000, 100000)
 	for done := 0; done < n && ctx.TimeLeft(); done += 200 {
 		var b []*c17Case
 		for j := 0; j < 200 && done+j < n; j++ {
-			b = append(b, c17Gen(ctx.Rng))
+			if j%4 == 3 { // a quarter of the random cases are of the family `late`
+				b = append(b, c17GenLate(ctx.Rng))
+			} else if j%8 == 1 { // an eighth of the family `utils`
+				b = append(b, c17GenUtils(ctx.Rng))
+			} else {
+				b = append(b, c17Gen(ctx.Rng))
+			}
 		}
 		if err := c17Batch(ctx, b); err != nil {
 			return err
